@@ -139,8 +139,10 @@ def manifest_op(g, name="build.ninja", text=None, extra=(), style=None, builddir
     return {"op": "manifest", "name": name, "text": text, "g": g, "extra": [list(e) for e in extra]}
 
 def invoke(targets=(), j=2, k=0, adopt=False, file="build.ninja", outcomes=None, policy=None,
-           crash=None, kill=None, extra_args=(), explain=False):
+           crash=None, kill=None, extra_args=(), explain=False, cdir=""):
     argv = []
+    if cdir:
+        argv += ["-C", cdir]
     if file != "build.ninja":
         argv += ["-f", file]
     argv += ["-j", str(j)]
@@ -153,7 +155,7 @@ def invoke(targets=(), j=2, k=0, adopt=False, file="build.ninja", outcomes=None,
     argv += list(extra_args)
     argv += list(targets)
     op = {"op": "invoke", "argv": argv, "targets": list(targets), "j": j, "k": k, "adopt": adopt,
-          "explain": bool(explain),
+          "explain": bool(explain), "cdir": cdir,
           "file": file, "outcomes": {str(a): b for a, b in (outcomes or {}).items()},
           "policy": policy or {"kind": "first"}}
     if crash:
@@ -172,8 +174,15 @@ def sources(g):
                 res.append(f)
     return res
 
-def scenario(id, ops, fam="sched", versions=None, max_orders=None):
+def scenario(id, ops, fam="sched", versions=None, max_orders=None, cdir=""):
     s = {"id": id, "fam": fam, "ops": ops}
+    if cdir:
+        # the project lives in a subdirectory; every invocation gets -C <cdir>
+        s["cdir"] = cdir
+        for o in ops:
+            if o.get("op") == "invoke" and o.get("cdir", "") != cdir:
+                o["cdir"] = cdir
+                o["argv"] = ["-C", cdir] + o["argv"]
     if versions:
         s["versions"] = versions
     if max_orders:
